@@ -1037,6 +1037,40 @@ def _native_setget_sweep(tier="quick", seed=0):
                 if not _same(now, was, spec.get("tol", 0)) or read_group(o, spec.get("group", ()), n) != before:
                     found.setdefault("%s.%s:refusal-changes-state" % (k[0], n), "%s: %s.%s = %r was refused, yet it now reads %r (was %r)" % (label, type(o).__name__, n, v, now, was))
                     break
+        # ... and the same values as the FIRST assignment after the property was reset (the element that would carry the value is then
+        # absent and has to be created): a refused value leaves the part as it was
+        def xml_of(o_):
+            from lxml import etree as _et
+
+            e_ = getattr(o_, "_element", None)
+            if e_ is None or not hasattr(e_, "getroottree"):
+                return None
+            return _et.tostring(e_.getroottree().getroot())
+
+        for o, n, k in tg:
+            spec = D[k]
+            if not spec.get("bad") or "none" not in spec:
+                continue
+            try:
+                prepare(o, k)
+                setattr(o, n, None)
+                x0 = xml_of(o)
+            except Exception:
+                continue
+            if x0 is None:
+                continue
+            for v in spec["bad"]:
+                evals[0] += 1
+                try:
+                    setattr(o, n, v)
+                    break  # accepted: reported by the leg above
+                except (ValueError, TypeError):
+                    pass
+                except Exception:
+                    break
+                if xml_of(o) != x0:
+                    found.setdefault("%s.%s:refusal-changes-state" % (k[0], n), "%s: %s.%s = %r as the first assignment after a reset was refused, yet the part is no longer what it was" % (label, type(o).__name__, n, v))
+                    break
         # two properties of one object, every (or a sample of the) value pairs, in both orders: each keeps its own value
         done = set()
         for o, n, k in tg:
@@ -1282,3 +1316,152 @@ def _native_setget_sweep(tier="quick", seed=0):
 
 
 JOBS = {"C09.native_reopen": _native_reopen, "C09.native_setget_sweep": _native_setget_sweep}
+
+
+# ---------------------------------------------------------------------------------------------------------
+# c:manualLayout: the offset assigned is the offset read, whatever mode and value another producer left there
+
+
+def _replay_manual_layout(model, rec):
+    from pptx.oxml import parse_xml
+    from pptx.oxml.ns import nsdecls
+
+    for prior in ("", '<c:xMode val="edge"/>', '<c:xMode val="edge"/><c:x val="0.7"/>', '<c:xMode/><c:x val="0.7"/>', '<c:x val="0.7"/>', '<c:xMode val="factor"/><c:x val="-0.1"/>'):
+        for v in (0.25, -1.0, 0.5):
+            ml = parse_xml("<c:manualLayout %s>%s</c:manualLayout>" % (nsdecls("c"), prior))
+            ml.horz_offset = v
+            if ml.horz_offset != v:
+                return {"confirmed": True, "witness_class": "set-get", "detail": "c:manualLayout holding %r: horz_offset = %r reads back %r" % (prior, v, ml.horz_offset)}
+    return {"confirmed": False, "detail": "horz_offset reads back as assigned from every prior layout state"}
+
+
+def _make_manual_layout(xmode_state, x_state, value):
+    @contract("C09", "C09.oxml.chart.shared.CT_ManualLayout.horz_offset[xMode %s, x %s, value %r]" % (xmode_state, x_state, value), replay=_replay_manual_layout)
+    def body(c):
+        """after `horz_offset = v` the getter returns v: the mode is (re)set to factor and the value stored, whichever of c:xMode / c:x were
+        present and whatever they held (prior states enumerated; attribute descriptors of the children run from source)."""
+        from pptx.oxml.chart.shared import CT_Double, CT_LayoutMode, CT_ManualLayout
+
+        def child(cls, attrs):
+            return AttrElem(cls, attrs)
+
+        xm = {"absent": None, "without val": child(CT_LayoutMode, {}), "edge": child(CT_LayoutMode, {"val": "edge"}), "factor": child(CT_LayoutMode, {"val": "factor"})}[xmode_state]
+        x = {"absent": None, "0.7": child(CT_Double, {"val": "0.7"})}[x_state]
+        ml = SObj(CT_ManualLayout, "manualLayout", x=x, xMode=xm)
+
+        def goa(field, cls):
+            def h(it, a, k):
+                if ml.fields[field] is None:
+                    ml.fields[field] = child(cls, {})
+                return ml.fields[field]
+            return GhostFn(h, "get_or_add_" + field)
+
+        ml.fields["get_or_add_xMode"] = goa("xMode", CT_LayoutMode)
+        ml.fields["get_or_add_x"] = goa("x", CT_Double)
+        c.path.assumed.add("get_or_add_<child> returns the existing child or adds an attribute-less one (C10 contracts)")
+        out = c.run(CT_ManualLayout.horz_offset.fset, ml, value)
+        if out.raised:
+            c.fails("set.never_raises", "raised %s" % out.exc)
+            return
+        back = c.run(CT_ManualLayout.horz_offset.fget, ml)
+        if back.raised:
+            c.fails("get.never_raises", "raised %s" % back.exc)
+            return
+        r = back.value
+        c.ensures("post.reads_back", r == value)
+
+    return body
+
+
+for _xm in ("absent", "without val", "edge", "factor"):
+    for _x in ("absent", "0.7"):
+        for _v in (0.25, -1.0):
+            _make_manual_layout(_xm, _x, _v)
+
+
+# ---------------------------------------------------------------------------------------------------------
+# removing a hyperlink: XmlPart.drop_rel keeps a relationship that is referenced twice or more, counting the reference about to go;
+# so it has to be asked while that reference is still in the XML, or a relationship another run / shape still uses is dropped
+
+
+def _replay_unlink(model, rec):
+    from pptx import Presentation
+
+    for kind in ("run", "shape"):
+        prs = Presentation()
+        sl = prs.slides.add_slide(prs.slide_layouts[6])
+        if kind == "run":
+            p = sl.shapes.add_textbox(0, 0, 10, 10).text_frame.paragraphs[0]
+            objs = []
+            for i in range(2):
+                rr = p.add_run()
+                rr.text = "r%d" % i
+                rr.hyperlink.address = "http://example.com/same"
+                objs.append(rr.hyperlink)
+        else:
+            objs = []
+            for i in range(2):
+                sh = sl.shapes.add_shape(1, 0, 0, 10, 10)
+                sh.click_action.hyperlink.address = "http://example.com/same"
+                objs.append(sh.click_action.hyperlink)
+        objs[0].address = None
+        try:
+            got = objs[1].address
+        except Exception as e:
+            got = repr(e)
+        if got != "http://example.com/same":
+            return {"confirmed": True, "witness_class": "set-get", "detail": "two %ss link to one address; clearing the first: the second reads %s" % (kind, got)}
+    return {"confirmed": False, "detail": "clearing one of two links to the same address leaves the other"}
+
+
+def _make_unlink(which):
+    @contract("C09", "C09.%s.drops_the_relationship_while_still_referenced" % which, replay=_replay_unlink)
+    def body(c):
+        """the relationship is released (drop_rel, once, with the element's own id) BEFORE the referencing element leaves the XML, and the
+        element is gone afterwards."""
+        import pptx.action as act
+        import pptx.text.text as txt
+
+        RID = SStr([Atom("rId", zs=z3.String("rId"))])
+        c.requires(z3.Length(z3.String("rId")) > 0)
+        state = {"present": True, "drops": []}
+        hl = SObj(None, "hlink", rId=RID, __external__=True)
+
+        def drop(it, a, k):
+            state["drops"].append((a[0], state["present"]))
+
+        part = SObj(None, "part", drop_rel=GhostFn(drop, "XmlPart.drop_rel"), __external__=True)
+        parent = SObj(None, "parent", part=part, __external__=True)
+
+        def gone(it, a, k):
+            state["present"] = False
+
+        if which == "text.text._Hyperlink._remove_hlinkClick":
+            from pyvc.engine import GhostProp
+
+            rPr = SObj(None, "rPr", hlinkClick=GhostProp(lambda it: hl if state["present"] else None), _remove_hlinkClick=GhostFn(gone, "_remove_hlinkClick"), __external__=True)
+            obj = SObj(txt._Hyperlink, "hyperlink", _rPr=rPr, _parent=parent)
+            fn = txt._Hyperlink._remove_hlinkClick
+        else:
+            from pyvc.engine import GhostProp
+
+            el = SObj(None, "cNvPr", hlinkClick=GhostProp(lambda it: hl if state["present"] else None), remove=GhostFn(gone, "lxml.remove"), __external__=True)
+            if which == "action.Hyperlink._remove_hlink":
+                obj = SObj(act.Hyperlink, "hyperlink", _element=el, _parent=parent, _hover=False)
+                fn = act.Hyperlink._remove_hlink
+            else:
+                obj = SObj(act.ActionSetting, "click_action", _element=el, _parent=parent, _hover=False)
+                fn = act.ActionSetting._clear_click_action
+        out = c.run(fn, obj)
+        if out.raised:
+            c.fails("never_raises", "raised %s" % out.exc)
+            return
+        c.ensures("post.released_once_with_its_own_id", len(state["drops"]) == 1 and state["drops"][0][0] is RID)
+        c.ensures("post.released_while_the_reference_is_still_counted", all(p for _, p in state["drops"]))
+        c.ensures("post.element_removed", state["present"] is False)
+
+    return body
+
+
+for _w in ("text.text._Hyperlink._remove_hlinkClick", "action.Hyperlink._remove_hlink", "action.ActionSetting._clear_click_action"):
+    _make_unlink(_w)
